@@ -26,6 +26,9 @@ def obsOf (i : Input) (evs : List Ev) (cons : Nat) (pub closed : Bool) : Obs :=
   | .hangup =>
     { hangup := true, method := .other, ask := .unspecified, nresp := (respsOf evs).length, code := 0,
       cseqOk := true, sidOk := true, consumers := cons, published := pub, closed := closed }
+  | .frame _ _ =>
+    { hangup := false, method := .other, ask := .unspecified, nresp := (respsOf evs).length, code := 0,
+      cseqOk := true, sidOk := true, consumers := cons, published := pub, closed := closed, frame := true }
   | .req r _ =>
     { hangup := false, method := r.method, ask := specSetupAsk r.transport, nresp := (respsOf evs).length,
       code := match respsOf evs with
@@ -69,6 +72,7 @@ def final (cfg : Cfg) : Sess → List Input → Sess
     `:554` defaulting, which is never empty -/
 def Input.wf : Input → Prop
   | .hangup => True
+  | .frame _ _ => True
   | .req r _ => r.setupPath ≠ []
 
 /-! ### the reference gate and the decidable well-formedness of a configuration -/
@@ -93,8 +97,8 @@ def gateEq (g h : Status → Method → Bool) : Bool :=
   allStatus.all fun st => allMethods.all fun m => g st m == h st m
 
 /-- the configuration answers a repeated PLAY, only enters `playing` on a 200, gates as the reference
-    table, and puts the session id on every response -/
+    table, puts the session id on every response, and drops client frames outside recording -/
 def cfgOk (cfg : Cfg) : Bool :=
-  cfg.playAgainResponds && cfg.playingNeedsOk && gateEq cfg.gate refGate && cfg.sidCarried
+  cfg.playAgainResponds && cfg.playingNeedsOk && gateEq cfg.gate refGate && cfg.sidCarried && cfg.framesDropped
 
 end IpcHub.Rtsp
